@@ -75,8 +75,10 @@ def to_program(G, namespaces=False):
     pres = set()
     for f in range(1, len(G["inc"]) + 1):
         fl = {"path": fname(f), "includes": [fname(g) for g in G["inc"][f - 1]], "defs": []}
-        if namespaces or not any(d["k"] != "dead" and d["f"] == f for d in G["defs"]):
-            # a file without any definition needs something to be a document at all
+        if namespaces or f == 1 or not any(d["k"] != "dead" and d["f"] == f for d in G["defs"]):
+            # the root file always carries a namespace line (so that a root from which everything is trimmed is
+            # still a non-empty document: thriftgo's parser rejects a zero-length file); so does a file without
+            # any definition
             fl["namespaces"] = [{"lang": "go", "name": "pkg" + fprefix(f)}]
         files.append(fl)
     for i, d in enumerate(G["defs"]):
